@@ -27,6 +27,7 @@ type GenerateSettings struct {
 	typeUnmarshallers map[string]string
 	typeLengthers     map[string]string
 	customRecordTypes map[string]struct{}
+	enumSizes         map[string]uint8
 
 	ImportGenerationMode
 	imported          []File
@@ -442,6 +443,10 @@ func (f File) Generate(inputWriter io.Writer, settings GenerateSettings) error {
 	settings.typeUnmarshallers = f.typeUnmarshallers(settings)
 	settings.typeLengthers = f.typeLengthers()
 	settings.customRecordTypes = f.customRecordTypes()
+	settings.enumSizes = make(map[string]uint8, len(f.Enums))
+	for _, en := range f.Enums {
+		settings.enumSizes[en.Name] = fixedSizeTypes[en.SimpleType]
+	}
 
 	usedTypes := f.usedTypes()
 	if settings.PackageName == "" && f.GoPackage != "" {
@@ -673,7 +678,11 @@ func writeFieldReadByter(name string, typ FieldType, w *iohelp.ErrorWriter, sett
 		writeLineWithTabs(w, "%ASGN = make([]%TYPE, iohelp.ReadUint32Bytes(buf[at:]))", depth, name, typ.Array.goString(settings))
 		writeLineWithTabs(w, "at += 4", depth)
 		if safe {
-			if sz, ok := fixedSizeTypes[typ.Array.Simple]; ok {
+			sz, ok := fixedSizeTypes[typ.Array.Simple]
+			if !ok {
+				sz, ok = settings.enumSizes[typ.Array.Simple]
+			}
+			if ok {
 				writeLengthCheck(w, "len(%ASGN)*"+strconv.Itoa(int(sz)), depth, name)
 				safe = false
 			}
@@ -689,6 +698,9 @@ func writeFieldReadByter(name string, typ FieldType, w *iohelp.ErrorWriter, sett
 		writeLineWithTabs(w, "}", depth)
 	} else if typ.Map != nil {
 		lnName := lengthName(settings)
+		if safe {
+			writeLengthCheck(w, "4", depth)
+		}
 		writeLineWithTabs(w, lnName+" := iohelp.ReadUint32Bytes(buf[at:])", depth)
 		writeLineWithTabs(w, "at += 4", depth)
 		writeLineWithTabs(w, "%ASGN = make(%TYPE,"+lnName+")", depth, name, typ.Map.goString(settings))
@@ -713,7 +725,11 @@ func writeFieldReadByter(name string, typ FieldType, w *iohelp.ErrorWriter, sett
 		if format, ok := settings.typeByteReaders[simpleTyp+hintSafeKey]; ok && safe {
 			writeLineWithTabs(w, format, depth, name, typ.goString(settings))
 		} else {
-			if sz, ok := fixedSizeTypes[simpleTyp]; ok && safe {
+			sz, ok := fixedSizeTypes[simpleTyp]
+			if !ok {
+				sz, ok = settings.enumSizes[simpleTyp]
+			}
+			if ok && safe {
 				writeLengthCheck(w, strconv.Itoa(int(sz)), depth, name)
 			}
 			writeLineWithTabs(w, settings.typeByteReaders[simpleTyp], depth, name, typ.goString(settings))
